@@ -88,6 +88,9 @@ def scenarios(W):
     add("close-from-on_ping-mute-server", mute, "own-close", hooks={"on_ping": closer})
     add("ping-timeout-mute-server", [ok(msg, pong=None, answer_close=False)], "error", run_kwargs=dict(ping_interval=3, ping_timeout=1))
     add("illegal-frame-mute-server", [ok(msg, (2.0, "frames", bytes([0xC1, 0x01, 0x41])), answer_close=False)], "error")
+    stream = [(0.5 + 0.4 * i, "frames", text("tick%d" % i)) for i in range(200)]
+    add("close-from-on_message-streaming-mute-server", [ok(*stream, answer_close=False)], "own-close", hooks={"on_message": closer})
+    add("illegal-frame-streaming-mute-server", [ok((0.2, "frames", bytes([0xC1, 0x00])), *stream, answer_close=False)], "error")
     add("server-close-with-keepalive", [ok(msg, (7.0, "close", b"\x03\xe8"), pong=0.1)], "close-frame", (1000, ""), run_kwargs=dict(ping_interval=2, ping_timeout=1))
     add("eof-with-keepalive", [ok(msg, (7.0, "eof"), pong=0.1)], "error", run_kwargs=dict(ping_interval=2, ping_timeout=1))
     # --- user callback raising (not an ending by itself) then server close ---
@@ -341,10 +344,15 @@ def run(res, tier, seed, shard, nshards):
         if nm in byname:
             jobs.append(("fidelity", byname[nm], 0))
 
+    jobs.append(("nested", None, None))
+    jobs.append(("nested", None, "rel"))
     for ji, job in enumerate(jobs):
         if ji % nshards != shard:
             continue
         kind, sc, arg = job
+        if kind == "nested":
+            nested_rerun_case(res, W, arg)
+            continue
         if kind == "plain":
             run_scenario(res, W, sc, sched.NonPreemptive(), "plain", dispatcher_kind=arg)
             res.count("scenario_runs")
@@ -393,3 +401,66 @@ def run(res, tier, seed, shard, nshards):
                 st = sched.RandomStrategy((seed << 16) ^ (ji << 10) ^ i, p_switch=0.3, line_p=0.01)
                 run_scenario(res, W, sc, st, f"random#{i}", with_second=False, line_points=True, closer_at=1.0)
                 res.count("random_schedule_runs")
+
+
+def nested_rerun_case(res, W, dispatcher_kind):
+    """'the same object can be run again' - also from inside on_close, the usual place for a hand-written reconnect:
+    the nested run must complete, and each run gets its own single on_close"""
+    ok = lambda *script, **kw: dict(outcome="ok", script=list(script), **kw)  # noqa
+    plan = [ok((0.5, "frames", text("first")), (1.0, "close", b"\x03\xe8one")), ok((0.5, "frames", text("second")), (1.0, "close", b"\x03\xe9two"))]
+    out = {"rets": []}
+
+    def scen():
+        H.reset_process_state()
+        state = {"n": 0}
+
+        def on_close_hook(run, app, code, reason):
+            state["n"] += 1
+            if state["n"] == 1:
+                kw = {}
+                if dispatcher_kind == "rel":
+                    return  # with an external dispatcher the second run is started after dispatch() returns (below)
+                out["rets"].append(app.run_forever(**kw))
+        run = appsim.AppRun(plan, hooks={"on_close": on_close_hook}, last_repeats=False)
+        out["run"] = run
+        if dispatcher_kind == "rel":
+            for _ in range(2):
+                rel = appsim.SimRel()
+                run.run_forever(dispatcher=rel)
+                rel.dispatch(horizon=HORIZON - 50)
+                out["rets"].append(run.ret)
+        else:
+            run.run_forever()
+            out["rets"].append(run.ret)
+    S = sched.Sched(horizon=HORIZON, watchdog=60)
+    failure = None
+    try:
+        S.run(scen)
+    except sched.SimFailure as e:
+        failure = e
+    run = out.get("run")
+    res.case(("nested-rerun", dispatcher_kind), nontrivial=True)
+    res.count("runs_judged")
+    res.count("nested_rerun_cases")
+    case = {"scenario": "run again from inside on_close", "dispatcher": dispatcher_kind or "builtin",
+            "trace": [(t, n, [repr(a)[:30] for a in args]) for t, n, args, ci, ac in (run.trace if run else [])]}
+
+    def bad(kind, detail, **kw):
+        res.violation(kind, f"re-run from on_close ({dispatcher_kind or 'builtin'}): {detail}", case, trigger="nested-rerun", ending="close-frame", second=True,
+                      dispatcher=dispatcher_kind or "builtin", **kw)
+    if failure is not None or run is None:
+        if isinstance(failure, sched.WatchdogExpired):
+            res.inconc("watchdog in nested re-run")
+            return
+        bad("no-return", f"{type(failure).__name__}: {str(failure)[:200]}", how=type(failure).__name__)
+        return
+    names = [n for (t, n, a, ci, ac) in run.trace]
+    closes = [tuple(a) for (t, n, a, ci, ac) in run.trace if n == "on_close"]
+    msgs = [a[0] for (t, n, a, ci, ac) in run.trace if n == "on_message"]
+    res.count("on_close_checked", 2)
+    if msgs != ["first", "second"] or closes != [(1000, "one"), (1001, "two")] or names.count("on_open") != 2:
+        bad("nested-run-incomplete", f"messages {msgs}, on_close calls {closes}, callbacks {names}")
+    elif [r for r in out["rets"] if r is not False]:
+        bad("return-value", f"return values {out['rets']}, expected False for both runs", got=repr(out["rets"]))
+    if run.open_transports():
+        bad("transport-left-open", f"{len(run.open_transports())} transports open")
